@@ -171,3 +171,250 @@ def c17(pid, tier, seed):
 
 
 EXTRA["C17"] = c17
+
+
+def c06(pid, tier, seed):
+    """Liveness obligations (alias / no-rebind / no-cache), discharged syntactically on the ASTs,
+    plus the native oracle for formats, filters and set functions (bounded)."""
+    import ast
+    from . import framecheck as fc
+    obs = []
+
+    def ob(name, ok, reason=None, where=None):
+        o = obligation("C06/%s" % name, ok, reason=reason, where=where, props=("C06",), clause="liveness")
+        o["backend"] = "syntactic liveness check on the AST"
+        obs.append(o)
+
+    views = extract.module("xgi/core/views.py")
+    init = views.funcs.get("IDView.__init__")
+    tables = {"_id_dict", "_id_attr", "_bi_id_dict", "_bi_id_attr"}
+    ok_alias, why = True, []
+    seen = set()
+    if init is None:
+        ok_alias, why = False, ["IDView.__init__ not found"]
+    else:
+        for n in ast.walk(init):
+            if isinstance(n, ast.Assign) and len(n.targets) == 1 and isinstance(n.targets[0], ast.Attribute) and n.targets[0].attr in tables:
+                seen.add(n.targets[0].attr)
+                v = n.value
+                good = (isinstance(v, ast.IfExp) and isinstance(v.orelse, ast.Attribute) and isinstance(v.orelse.value, ast.Name)
+                        and v.orelse.value.id == "network" and v.orelse.attr in ("_node", "_edge", "_node_attr", "_edge_attr"))
+                if not good:
+                    ok_alias = False
+                    why.append("L%d %s is not bound to the network's own table" % (n.lineno, n.targets[0].attr))
+        if seen != tables:
+            ok_alias = False
+            why.append("tables not bound: %s" % sorted(tables - seen))
+        ids_alias = any(isinstance(n, ast.Assign) and isinstance(n.targets[0], ast.Attribute) and n.targets[0].attr == "_ids"
+                        and isinstance(n.value, ast.Attribute) and n.value.attr == "_id_dict" for n in ast.walk(init))
+        if not ids_alias:
+            ok_alias = False
+            why.append("a full view's _ids is not the table itself")
+    ob("alias:IDView.__init__", ok_alias, "; ".join(why) or None, "xgi/core/views.py::IDView.__init__")
+
+    # no-rebind: the four incidence/attribute tables are assigned only in __init__/__setstate__
+    bad = []
+    for rel in fc.package_modules():
+        m = extract.module(rel)
+        for q, fn in m.funcs.items():
+            short = q.split(".")[-1]
+            for n in ast.walk(fn):
+                if isinstance(n, (ast.Assign, ast.AugAssign)):
+                    tg = n.targets if isinstance(n, ast.Assign) else [n.target]
+                    for t in tg:
+                        for tt in (t.elts if isinstance(t, ast.Tuple) else [t]):
+                            if isinstance(tt, ast.Attribute) and tt.attr in ("_node", "_edge", "_node_attr", "_edge_attr") and short not in ("__init__", "__setstate__"):
+                                bad.append("%s::%s L%d rebinds .%s" % (rel, q, n.lineno, tt.attr))
+    ob("no-rebind:tables", not bad, "; ".join(bad[:5]) or None, "xgi/**")
+
+    # no caching of statistic values
+    stats = extract.module("xgi/stats/__init__.py")
+    bad = []
+    for mod in (stats, views):
+        for q, fn in mod.funcs.items():
+            for d in fn.decorator_list:
+                name = d.attr if isinstance(d, ast.Attribute) else d.id if isinstance(d, ast.Name) else (d.func.attr if isinstance(d, ast.Call) and isinstance(d.func, ast.Attribute) else getattr(getattr(d, "func", None), "id", ""))
+                if name in ("cache", "lru_cache", "cached_property"):
+                    bad.append("%s::%s is decorated with %s" % (mod.rel, q, name))
+    for q, fn in stats.funcs.items():
+        if "." in q and q.split(".")[0] in ("IDStat", "MultiIDStat") and not q.endswith("__init__"):
+            for n in ast.walk(fn):
+                if isinstance(n, ast.Assign):
+                    for t in n.targets:
+                        if isinstance(t, ast.Attribute) and isinstance(t.value, ast.Name) and t.value.id == "self":
+                            bad.append("%s L%d stores self.%s outside __init__" % (q, n.lineno, t.attr))
+    ob("no-cache:stats", not bad, "; ".join(bad[:5]) or None, "xgi/stats/__init__.py")
+    val = stats.funcs.get("IDStat._val")
+    okv = bool(val) and stats.props.get("IDStat._val") and any(
+        isinstance(n, ast.Call) and isinstance(n.func, ast.Attribute) and n.func.attr == "func" for n in ast.walk(val))
+    ob("recompute:IDStat._val", bool(okv), None if okv else "IDStat._val is not a property that calls self.func on the current network", "xgi/stats/__init__.py::IDStat._val")
+
+    cmd = [NATIVE_PY, os.path.join(ROOT, "pyvc", "native_c06.py"), extract.REPO, str(seed)]
+    p = subprocess.run(cmd, stdout=subprocess.PIPE, stderr=subprocess.PIPE, cwd="/", timeout=900)
+    violations = []
+    if p.returncode != 0:
+        nat = {"checks": 0, "violations": [{"what": "native oracle crashed", "net": "-", "detail": p.stderr.decode()[-400:]}]}
+    else:
+        nat = json.loads(p.stdout.decode())
+    k = 0
+    for o in [o for o in obs if o["status"] == "refuted"]:
+        k += 1
+        path = write_text_replay(pid, k, "C06 liveness obligation refuted: %s\n%s" % (o["name"], o["reason"]), dict(property=pid, obligation=o["name"], reason=o["reason"], native=nat["violations"][:5]), cmd)
+        violations.append(dict(obligation=o, path=path, reproduced=bool(nat["violations"]), case={"native": nat["violations"][:3]}))
+    groups = {}
+    for v in nat["violations"]:
+        groups.setdefault(v["what"].split(":")[0], []).append(v)
+    for what, vs in groups.items():
+        k += 1
+        o = obligation("C06/bounded:%s" % what, False, reason="%s on %s: %s" % (vs[0]["what"], vs[0]["net"], vs[0]["detail"]), props=("C06",), clause="bounded")
+        path = write_text_replay(pid, k, "C06 bounded stand-in: %s" % what, dict(property=pid, native=vs[:10]), cmd)
+        violations.append(dict(obligation=o, path=path, reproduced=True, case={"native": vs[:3]}))
+    return dict(
+        obligations=obs, violations=violations,
+        bounded=[dict(function="views, statistics (all output formats), filterby/filterby_attr, neighbors/lookup/duplicates/isolates/singletons/empty/maximal, directed accessors, held views and stats across mutations",
+                      bound="4 small networks with unsorted insertion order (H x2, SC, DH), fixed argument grid", cases=nat["checks"],
+                      violations=len(nat["violations"]), kind="bounded stand-in: native comparison with the set-theoretic definitions computed from the raw tables")],
+        trusted=["numpy.array / pandas.Series / pandas.concat preserve the order of the list / dict they are given (exercised, not proved)",
+                 "Python attribute lookup: a view's tables alias the network's tables as long as those are never rebound"],
+        assumptions=["weighted statistics, degree-filtered sizes, filterby*, duplicates, maximal, isolates and the pandas/numpy formats are covered by the bounded stand-in only",
+                     "the handshake identity (degrees sum to sizes) follows from UInv/DInv by double counting; checked bounded here"],
+    )
+
+
+EXTRA["C06"] = c06
+
+
+def c07(pid, tier, seed):
+    """Ownership / deep-copy obligations of copy() and the pickle hooks, discharged on the ASTs,
+    plus the native equality/independence oracle (bounded)."""
+    import ast
+    obs = []
+
+    def ob(name, ok, reason=None, where=None):
+        o = obligation("C07/%s" % name, ok, reason=reason, where=where, props=("C07",), clause="ownership")
+        o["backend"] = "syntactic ownership / deep-copy dataflow check on the AST"
+        obs.append(o)
+
+    FIELDS = ["_edge_uid", "_net_attr", "_node", "_node_attr", "_edge", "_edge_attr"]
+    for cls, rel in (("Hypergraph", "xgi/core/hypergraph.py"), ("DiHypergraph", "xgi/core/dihypergraph.py"), ("SimplicialComplex", "xgi/core/simplicialcomplex.py")):
+        m = extract.module(rel)
+        cp = m.funcs.get("%s.copy" % cls)
+        where = "%s::%s.copy" % (rel, cls)
+        if cp is None:
+            ob("copy:%s" % cls, False, "copy() not found", where)
+        else:
+            why = []
+            fresh = any(isinstance(n, ast.Assign) and isinstance(n.value, ast.Call) and ast.unparse(n.value.func) == "self.__class__" and not n.value.args
+                        for n in ast.walk(cp))
+            if not fresh:
+                why.append("the copy is not built from an empty self.__class__()")
+            adders = [n for n in ast.walk(cp) if isinstance(n, ast.Call) and isinstance(n.func, ast.Attribute)
+                      and n.func.attr in ("add_nodes_from", "add_edges_from", "add_simplices_from")]
+            kinds = {n.func.attr for n in adders}
+            if "add_nodes_from" not in kinds or not (kinds & {"add_edges_from", "add_simplices_from"}):
+                why.append("nodes and edges are not both transferred through the bulk adders")
+            for n in adders:
+                g = n.args[0] if n.args else None
+                if not isinstance(g, ast.GeneratorExp) or not isinstance(g.elt, ast.Tuple):
+                    why.append("L%d: argument of %s is not a generator of tuples" % (n.lineno, n.func.attr))
+                    continue
+                last = g.elt.elts[-1]
+                if not (isinstance(last, ast.Call) and isinstance(last.func, ast.Name) and last.func.id == "deepcopy"):
+                    why.append("L%d: attribute record handed to %s is not deep-copied" % (n.lineno, n.func.attr))
+                if n.func.attr != "add_nodes_from":
+                    src = ast.unparse(g.generators[0].iter)
+                    if "members(dtype=dict)" not in src and "dimembers(dtype=dict)" not in src:
+                        why.append("L%d: member sets are not taken from the (copying) members accessor" % n.lineno)
+            na = [n for n in ast.walk(cp) if isinstance(n, ast.Assign) and isinstance(n.targets[0], ast.Attribute) and n.targets[0].attr == "_net_attr"]
+            if not na or not all(isinstance(n.value, ast.Call) and getattr(n.value.func, "id", "") == "deepcopy" for n in na):
+                why.append("network attributes are not deep-copied")
+            uid = [n for n in ast.walk(cp) if isinstance(n, ast.Assign) and isinstance(n.targets[0], ast.Attribute) and n.targets[0].attr == "_edge_uid"]
+            if not uid or not all(isinstance(n.value, ast.Call) and getattr(n.value.func, "id", "") == "copy" and ast.unparse(n.value.args[0]) == "self._edge_uid" for n in uid):
+                why.append("the id counter is not an independent copy of the source's counter")
+            ob("copy:%s" % cls, not why, "; ".join(why) or None, where)
+        # pickle hooks (SimplicialComplex inherits Hypergraph's)
+        for hook in ("__getstate__", "__setstate__"):
+            fn = m.funcs.get("%s.%s" % (cls, hook))
+            if fn is None:
+                continue
+            where = "%s::%s.%s" % (rel, cls, hook)
+            if hook == "__getstate__":
+                ret = [n for n in ast.walk(fn) if isinstance(n, ast.Return)]
+                ok = len(ret) == 1 and isinstance(ret[0].value, ast.Dict) and sorted(k.value for k in ret[0].value.keys) == sorted(FIELDS) and all(
+                    ast.unparse(v) == "self.%s" % k.value for k, v in zip(ret[0].value.keys, ret[0].value.values))
+                ob("pickle:%s.__getstate__" % cls, ok, None if ok else "the pickled state is not exactly the six state fields", where)
+            else:
+                got = {}
+                for n in ast.walk(fn):
+                    if isinstance(n, ast.Assign) and isinstance(n.targets[0], ast.Attribute) and n.targets[0].attr in FIELDS:
+                        got[n.targets[0].attr] = ast.unparse(n.value)
+                ok = all(got.get(f) == "state['%s']" % f for f in FIELDS)
+                views_ok = sum(1 for n in ast.walk(fn) if isinstance(n, ast.Assign) and isinstance(n.targets[0], ast.Attribute)
+                               and n.targets[0].attr in ("_nodeview", "_edgeview") and ast.unparse(n.value).endswith("(self)")) == 2
+                ob("pickle:%s.__setstate__" % cls, ok and views_ok, None if ok and views_ok else "state fields / views are not restored one-to-one", where)
+    cmd = [NATIVE_PY, os.path.join(ROOT, "pyvc", "native_c07.py"), extract.REPO, str(seed)]
+    p = subprocess.run(cmd, stdout=subprocess.PIPE, stderr=subprocess.PIPE, cwd="/", timeout=900)
+    nat = json.loads(p.stdout.decode()) if p.returncode == 0 else {"checks": 0, "violations": [{"what": "native oracle crashed", "net": "-", "detail": p.stderr.decode()[-400:]}]}
+    violations, k = [], 0
+    for o in [o for o in obs if o["status"] == "refuted"]:
+        k += 1
+        path = write_text_replay(pid, k, "C07 obligation refuted: %s\n%s" % (o["name"], o["reason"]), dict(property=pid, obligation=o["name"], reason=o["reason"], native=nat["violations"][:5]), cmd)
+        violations.append(dict(obligation=o, path=path, reproduced=bool(nat["violations"]), case={"native": nat["violations"][:3]}))
+    groups = {}
+    for v in nat["violations"]:
+        groups.setdefault(v["what"], []).append(v)
+    for what, vs in groups.items():
+        k += 1
+        o = obligation("C07/bounded:%s" % what, False, reason="%s on %s: %s" % (what, vs[0]["net"], vs[0]["detail"]), props=("C07",), clause="bounded")
+        path = write_text_replay(pid, k, "C07 bounded stand-in: %s" % what, dict(property=pid, native=vs[:10]), cmd)
+        violations.append(dict(obligation=o, path=path, reproduced=True, case={"native": vs[:3]}))
+    return dict(
+        obligations=obs, violations=violations,
+        bounded=[dict(function="copy(), pickle round trip, own-class constructor for the three classes", bound="3 networks with explicit ids, empty edge, isolated nodes, nested mutable attribute values; fixed edit scripts on both sides",
+                      cases=nat["checks"], violations=len(nat["violations"]), kind="bounded stand-in: native equality / independence / fresh-id oracle")],
+        trusted=["copy.deepcopy returns a value equal to its argument sharing no mutable object with it; copy.copy(itertools.count) is an independent counter with the same next value",
+                 "pickle round-trips dicts, sets and itertools.count without sharing",
+                 "the bulk adders store fresh sets and fresh attribute records (ownership obligations of the executor, C01/C02/C03 kernels)"],
+        assumptions=["equality of the copy with its source is covered by the bounded stand-in, not by a discharged obligation (the adders' contracts do not yet relate the stored edges to the elements of a generator argument)",
+                     "fresh ids after copy follow from C04's Fresh invariant plus uid_cp = uid_self (syntactic obligation on the counter copy)"],
+    )
+
+
+EXTRA["C07"] = c07
+
+
+def oracle_part(pid, tier, seed, start=0):
+    """Run the native oracle of a property (bounded stand-in); returns (bounded-entry, violations)."""
+    cmd = [NATIVE_PY, os.path.join(ROOT, "pyvc", "native_oracles.py"), extract.REPO, str(seed), pid] + (["thorough"] if tier == "thorough" else [])
+    p = subprocess.run(cmd, stdout=subprocess.PIPE, stderr=subprocess.PIPE, cwd="/", timeout=3000)
+    if p.returncode != 0:
+        nat = {"checks": 0, "bound": "-", "violations": [{"what": "native oracle crashed", "net": "-", "detail": p.stderr.decode()[-600:]}]}
+    else:
+        nat = json.loads(p.stdout.decode())
+    groups = {}
+    for v in nat["violations"]:
+        groups.setdefault(v["what"].split(" (")[0], []).append(v)
+    violations = []
+    k = start
+    for what, vs in groups.items():
+        k += 1
+        o = obligation("%s/bounded:%s" % (pid, what), False, reason="%s on %s: %s" % (vs[0]["what"], vs[0]["net"], vs[0]["detail"]), props=(pid,), clause="bounded")
+        path = write_text_replay(pid, k, "%s bounded stand-in: %s" % (pid, what), dict(property=pid, native=vs[:10]), cmd)
+        violations.append(dict(obligation=o, path=path, reproduced=True, case={"native": vs[:3]}))
+    entry = dict(function="native oracle for %s (pyvc/native_oracles.py)" % pid, bound=nat.get("bound", ""), cases=nat["checks"],
+                 violations=len(nat["violations"]), kind="bounded stand-in: definitions computed independently from the raw tables / networkx / numpy")
+    return entry, violations
+
+
+def with_oracle(pid, extra_fn=None):
+    def run(pid_, tier, seed):
+        base = extra_fn(pid_, tier, seed) if extra_fn else dict(obligations=[], violations=[], bounded=[], trusted=[], assumptions=[])
+        entry, viol = oracle_part(pid_, tier, seed, start=100)
+        base.setdefault("bounded", []).append(entry)
+        base.setdefault("violations", []).extend(viol)
+        return base
+    return run
+
+
+for _p in ("C14", "C19", "C10", "C11", "C09", "C16"):
+    EXTRA[_p] = with_oracle(_p)
